@@ -100,6 +100,17 @@ Add(path, n) ==
      /\ routes' = Append(routes, [pos |-> pos, path |-> full, mw |-> mw])
      /\ UNCHANGED <<curPrefix, curMw, saved, global, commonArr, curAlias>>
 
+\* Resource(base, controller, n middleware) with a controller type named "Regres" that implements Index only: the route
+\* "/" inside Group(base + "regres", n middleware) - one statement, the group is gone when it returns
+ResName == <<"r", "e", "g", "r", "e", "s">>
+Res(base, n) ==
+  LET pos  == Len(prog) + 1
+      pre  == curPrefix \o FormatPath(Strict, base \o ResName)                  \* Group(basePath + resName)
+      full == FormatPath(Strict, pre \o FormatPath(Strict, Simple(<<"/">>)))     \* AddNamed(name, "/", action)
+  IN /\ prog' = Append(prog, [op |-> "res", base |-> base, mw |-> n])
+     /\ routes' = Append(routes, [pos |-> pos, path |-> full, mw |-> curMw \o Ids(pos, n)])
+     /\ UNCHANGED <<curPrefix, curMw, saved, global, commonArr, curAlias>>
+
 RouteUse(k, n) ==
   LET pos == Len(prog) + 1 IN
   /\ k \in 1..Len(routes) /\ n > 0
@@ -132,7 +143,8 @@ GroupMwAt(j, i) == (IF j = 0 THEN <<>> ELSE OwnMw(j))
                    \o FlattenSeq([x \in 1..Len(UsesDirectlyIn(j, i)) |-> Ids(UsesDirectlyIn(j, i)[x], prog[UsesDirectlyIn(j, i)[x]].mw)])
 ExpGroupMw(i)  == LET enc == SortedSeq(EnclosingOf(i)) IN FlattenSeq([x \in 1..Len(enc) |-> GroupMwAt(enc[x], i)])
 ExpPrefixes(i) == LET enc == SortedSeq(EnclosingOf(i)) IN [x \in 1..Len(enc) |-> prog[enc[x]].prefix]
-ExpPath(i)     == RegPath(Strict, ExpPrefixes(i), prog[i].path)
+ExpPath(i)     == IF prog[i].op = "res" THEN RegPath(Strict, Append(ExpPrefixes(i), prog[i].base \o ResName), <<"/">>)
+                  ELSE RegPath(Strict, ExpPrefixes(i), prog[i].path)
 RouteUses(k)   == SortedSeq({ u \in 1..Len(prog) : prog[u].op = "ruse" /\ prog[u].route = k })
 ExpRouteMw(k)  == LET i == routes[k].pos IN
                   ExpGroupMw(i) \o Ids(i, prog[i].mw)
